@@ -1,7 +1,6 @@
 (* C12 facts: every state get_state emits is well-formed; members = file references; names flat. *)
 From Skv Require Import CodecWf PyValInd.
 From Coq Require Import Lia.
-Set Default Timeout 20.
 
 Ltac inv_bind H :=
   repeat match type of H with
